@@ -17,11 +17,17 @@
 //!   T = TypedReteUlEngine, U = ReteUlEngine: facts = `a:b` (initial counters).
 //!   I = IncrementalEngine: facts = `a:b,a:b,…` inserted as facts of type C after the rules; actions are no-ops.
 //! obs := `ok <fired, run-length encoded> <a> <b>` | `hang` (no return within the action budget / deadline) | panic:…
+//!
+//! history case := `H <rules> <op> <op> …` — ONE IncrementalEngine (rules as above, no-op actions, facts of type C) driven
+//!   through several calls: `i<a>:<b>` insert, `u<h>:<a>:<b>` update, `x<h>` retract, `F` fire_all, `Z` reset.
+//!   What survives between two fire_all calls is the agenda (pending activations, fired-rule set, focus).
+//! obs := `ok tok …`, one token per call: `i<handle>` | `u<0|1>` | `x<0|1>` | `F<fired, run-length encoded>` | `z`; `hang`; panic:…
 use rre_harness::*;
 use rust_rule_engine::rete::agenda::{Activation, AdvancedAgenda, ConflictResolutionStrategy};
 use rust_rule_engine::rete::facts::{FactValue, TypedFacts};
 use rust_rule_engine::rete::network::{ReteUlEngine, ReteUlNode, TypedReteUlEngine, TypedReteUlRule};
 use rust_rule_engine::rete::propagation::IncrementalEngine;
+use rust_rule_engine::rete::working_memory::FactHandle;
 use rust_rule_engine::rete::AlphaNode;
 use std::collections::HashMap;
 use std::sync::atomic::{AtomicU64, Ordering};
@@ -226,10 +232,61 @@ fn exec_engine(kind: &str, rules: Vec<CRule>, facts: Vec<(i64, i64)>) -> String 
     }
 }
 
+fn cfact(a: i64, b: i64) -> TypedFacts {
+    let mut d = TypedFacts::new();
+    d.set("a", a);
+    d.set("b", b);
+    d
+}
+
+/// one engine, many calls (under the same watchdog as the single-call engine cases: the whole history shares the
+/// action budget and the deadline)
+fn exec_history(rules: Vec<CRule>, ops: Vec<String>) -> String {
+    guarded(move |count| {
+        let mut e = IncrementalEngine::new();
+        for (i, r) in rules.iter().enumerate() {
+            let node = ReteUlNode::UlAlpha(AlphaNode { field: key(r.ck).into(), operator: "<".into(), value: r.limit.to_string() });
+            let cnt = count.clone();
+            e.add_rule(
+                TypedReteUlRule { name: format!("R{}", i), node, priority: r.prio, no_loop: r.no_loop,
+                    action: Arc::new(move |_f: &mut TypedFacts, _r| { tick(&cnt); }) },
+                vec!["C".to_string()],
+            );
+        }
+        let mut toks = vec!["ok".to_string()];
+        for op in &ops {
+            let nums = |s: &str| -> Option<Vec<i64>> { s.split(':').map(|x| x.parse().ok()).collect() };
+            let tok = match op.as_bytes()[0] {
+                b'i' => match nums(&op[1..]).as_deref() {
+                    Some([a, b]) => format!("i{}", e.insert("C".to_string(), cfact(*a, *b)).id()),
+                    _ => return "bad-case".into(),
+                },
+                b'u' => match nums(&op[1..]).as_deref() {
+                    Some([h, a, b]) if *h >= 0 => format!("u{}", if e.update(FactHandle::new(*h as u64), cfact(*a, *b)).is_ok() { 1 } else { 0 }),
+                    _ => return "bad-case".into(),
+                },
+                b'x' => match op[1..].parse::<u64>() {
+                    Ok(h) => format!("x{}", if e.retract(FactHandle::new(h)).is_ok() { 1 } else { 0 }),
+                    _ => return "bad-case".into(),
+                },
+                b'F' if op == "F" => format!("F{}", rle(&e.fire_all())),
+                b'Z' if op == "Z" => { e.reset(); "z".to_string() }
+                _ => return "bad-case".into(),
+            };
+            toks.push(tok);
+        }
+        toks.join(" ")
+    })
+}
+
 fn exec(case: &str) -> String {
     let t: Vec<&str> = case.split_whitespace().collect();
     match t.first().copied() {
         Some("A") => exec_agenda(&t[1..]),
+        Some("H") if t.len() >= 2 => {
+            let Some(rules) = parse_rules(t[1]) else { return "bad-case".into() };
+            exec_history(rules, t[2..].iter().map(|s| s.to_string()).collect())
+        }
         Some("E") if t.len() == 4 => {
             let (Some(rules), Some(facts)) = (parse_rules(t[2]), parse_facts(t[3])) else { return "bad-case".into() };
             exec_engine(t[1], rules, facts)
@@ -308,10 +365,64 @@ fn gen_engine(rng: &mut Rng) -> String {
     format!("E {} {} {}", kind, rules.join(","), if facts.is_empty() { "-".to_string() } else { facts.join(",") })
 }
 
+/// family "state that survives a fire_all call": one IncrementalEngine, 2..4 fire_all calls with inserts / updates /
+/// retracts (and sometimes a reset) in between.  Most rule sets contain an always-true rule WITHOUT no-loop (the call
+/// really runs into `max_iterations`) below one or two no-loop rules that fire first; after the bounded call a further
+/// insert / update re-activates the no-loop rules and fire_all is called again with no reset in between — the no-loop
+/// clause is evaluated over the whole history.  Priorities are pairwise distinct (as in the `E I` cases).
+fn gen_history(rng: &mut Rng) -> String {
+    let mut prios: Vec<i64> = vec![-7, -1, 0, 3, 10, 50];
+    rng.shuffle(&mut prios);
+    let nrules = rng.range(2, 4) as usize;
+    let mut ps: Vec<i64> = prios[..nrules].to_vec();
+    ps.sort();
+    let runaway = rng.chance(4, 5);
+    let mut rules = Vec::new();
+    for i in 0..nrules {
+        // ps ascending: rule 0 has the lowest priority
+        let always = *rng.pick(&[1_000_000_000i64, 1_000_000_000, 150]);
+        let r = if i == 0 && runaway {
+            // the runaway rule: always true, not no-loop; usually below everything else, sometimes moved up
+            format!("{}:0:{}:{}:0:0", ps[i], rng.below(2), always)
+        } else if rng.chance(3, 4) {
+            format!("{}:1:{}:{}:0:0", ps[i], rng.below(2), if rng.chance(2, 3) { always } else { rng.range(1, 6) as i64 })
+        } else {
+            format!("{}:{}:{}:{}:0:0", ps[i], rng.below(2), rng.below(2), rng.range(1, 6))
+        };
+        rules.push(r);
+    }
+    if rng.chance(1, 4) { rng.shuffle(&mut rules); }
+    let mut ops: Vec<String> = Vec::new();
+    let mut inserted = 0u64;
+    let fact = |rng: &mut Rng| format!("{}:{}", rng.below(6), rng.below(6));
+    // (every firing re-creates one activation per matching (rule, fact) pair and consumes one: with one live fact the
+    // agenda of a runaway call stays small, with two or three it grows by 1000 or 2000 per call — keep most histories small)
+    let max_facts = *rng.pick(&[1u64, 1, 1, 2, 2, 3]);
+    ops.push(format!("i{}", fact(rng))); inserted += 1;
+    if max_facts > 1 && rng.chance(1, 3) { ops.push(format!("i{}", fact(rng))); inserted += 1; }
+    ops.push("F".into());
+    for _ in 0..*rng.pick(&[1u64, 1, 1, 2, 2, 3]) {
+        // between two calls: mostly NO reset
+        if rng.chance(1, 5) { ops.push("Z".into()); }
+        for _ in 0..rng.range(1, 2) {
+            match rng.below(6) {
+                0 | 1 | 2 if inserted < max_facts => { ops.push(format!("i{}", fact(rng))); inserted += 1; }
+                5 if inserted > 1 => ops.push(format!("x{}", rng.range(1, inserted + 1))),
+                _ => {
+                    let extra = if rng.chance(1, 8) { 1 } else { 0 };
+                    ops.push(format!("u{}:{}", rng.range(1, inserted + extra), fact(rng)));
+                }
+            }
+        }
+        ops.push("F".into());
+    }
+    format!("H {} {}", rules.join(","), ops.join(" "))
+}
+
 fn gen(rng: &mut Rng, n: usize, _tier: &str) -> Vec<String> {
     let mut out = Vec::new();
     for i in 0..n {
-        if i % 8 == 7 { out.push(gen_engine(rng)); } else { out.push(gen_agenda(rng)); }
+        if i % 8 == 7 { out.push(gen_engine(rng)); } else if i % 32 == 3 { out.push(gen_history(rng)); } else { out.push(gen_agenda(rng)); }
     }
     out
 }
@@ -320,6 +431,14 @@ fn shrink(case: &str) -> Vec<String> {
     let t: Vec<&str> = case.split_whitespace().collect();
     match t.first().copied() {
         Some("A") => shrink_list(&t[1..]).into_iter().map(|v| format!("A {}", v.join(" "))).collect(),
+        Some("H") if t.len() >= 2 => {
+            let rules: Vec<&str> = t[1].split(',').collect();
+            let mut out: Vec<String> = shrink_list(&t[2..]).into_iter().map(|v| format!("H {} {}", t[1], v.join(" "))).collect();
+            if rules.len() > 1 {
+                for v in shrink_list(&rules) { if !v.is_empty() { out.push(format!("H {} {}", v.join(","), t[2..].join(" "))); } }
+            }
+            out
+        }
         Some("E") if t.len() == 4 => {
             let rules: Vec<&str> = t[2].split(',').collect();
             let facts: Vec<&str> = t[3].split(',').collect();
